@@ -240,6 +240,13 @@ func (ex *Exec) checkEnsures(st *State, in *ssa.Return) {
 	for _, en := range ct.Ensures {
 		g := ex.evalBool(st, en.E, env, en)
 		ex.oblige(st, "ensures", "ensures:"+en.Label, g, in.Pos(), en.Src)
+		// vacuity guard: the antecedent of an implication clause must be reachable on some path
+		ante := True
+		if b, ok := en.E.(*EBin); ok && b.Op == "==>" {
+			ante = ex.evalBool(st, b.L, env, en)
+		}
+		ex.cur.obls = append(ex.cur.obls, &Obligation{Func: ex.cur.key, Name: "cover:" + en.Label, Class: "cover", Cover: true,
+			Hyps: append([]*Term(nil), st.pc...), Goal: Not(ante), Pos: ex.posString(in.Pos()), Detail: en.Src})
 	}
 }
 
@@ -248,7 +255,7 @@ func (ex *Exec) checkEnsures(st *State, in *ssa.Return) {
 
 func (ex *Exec) callWithContract(st *State, instr ssa.Instruction, callee *ssa.Function, ct *Contract, args []Value) Value {
 	names := ex.paramNames(callee, ct)
-	env := &Env{vars: map[string]Value{}}
+	env := &Env{vars: map[string]Value{}, defs: ct.Defines}
 	for i, n := range names {
 		if i < len(args) {
 			env.vars[n] = args[i]
